@@ -555,6 +555,17 @@ func (w *vWorld) movePod(p *vPod, node int, daemon bool) {
 	}
 }
 
+// makeStatic turns a pod into a static (kubelet-managed, mirror) pod. For a labelled group it
+// still is one of the group's pods: it counts as a request and keeps its node non-empty.
+func (w *vWorld) makeStatic(p *vPod, static bool) {
+	obj := *p.obj
+	obj.Annotations = nil
+	if static {
+		obj.Annotations = map[string]string{"kubernetes.io/config.source": "file"}
+	}
+	p.obj = &obj
+}
+
 // setPodCPU replaces a pod's CPU request (pods come and go between scans).
 func (w *vWorld) setPodCPU(p *vPod, cpu int64) {
 	p.cpu = cpu
